@@ -43,7 +43,8 @@ ASSUMPTIONS = ["no item is large enough to make nodeBuilder.hasCapacity fail (ke
                "which are expected to fail (known finding chunker.append:overflow-boundary-not-resynced)"]
 REQUIRED_TAGS = ["height2", "height3", "route:incr", "route:insdel", "route:other", "route:shrink", "route:bnd", "route:bnddel", "route:merge",
                  "route:asc1", "size-forced-boundary", "addr", "blob-internal", "blob-exact-multiple", "empty", "single-chunk", "overflow-witness",
-                 "json", "json-levels3", "closure", "closure-height2"]
+                 "json", "json-levels3", "closure", "closure-height2", "wide-keys", "height>=3-merge", "last-leaf-edit", "first-leaf-edit",
+                 "blob-reuse-shallower-multichunk-after-taller", "height4"]
 HARNESS_TIMEOUT = 900
 
 KNOWN_KEY = "chunker.append:overflow-boundary-not-resynced"
@@ -57,6 +58,24 @@ OVERFLOW_WITNESS = [
 ]
 
 ALL_ROUTES = ["incr", "asc1", "insdel", "other", "shrink", "bnd", "bnddel", "merge"]
+TALL_ROUTES = ["mergetail", "mergehead", "merge", "incr", "insdel", "other", "bnd", "bnddel"]
+
+
+def gen_tall(rng):
+    """wide keys (about 1 KB): fan-out about 4 on every level, 3-5 levels with < 250 rows"""
+    n = rng.randint(40, 220)
+    return {"kind": "map", "seed": rng.randrange(1 << 30), "n": n, "kspace": n * rng.choice([3, 10]), "vmin": 10, "vmax": 120,
+            "kpad": rng.choice([700, 1000, 1400]), "routes": ["bulk", "mergetail", "mergehead"] + rng.sample(TALL_ROUTES[2:], 2)}
+
+
+def blob_levels(n, chunk):
+    if n <= chunk:
+        return 1 if n > 0 else 0
+    fan, d, top = chunk // 20, n // chunk, 0
+    while d > 0:
+        d //= fan
+        top += 1
+    return top + 1
 
 
 def gen_map(rng, big=False, small=False):
@@ -91,6 +110,8 @@ def gen_cases(rng, tier):
     cases.append({"kind": "map", "seed": 12, "n": 0, "kspace": 10, "vmin": 5, "vmax": 9, "routes": ["bulk", "insdel", "shrink"]})
     for _ in range(26 if quick else 600):
         cases.append(gen_map(rng))
+    for _ in range(14 if quick else 300):
+        cases.append(gen_tall(rng))
     for _ in range(6 if quick else 100):
         cases.append(gen_map(rng, big=True))
     for _ in range(8 if quick else 100):
@@ -112,7 +133,7 @@ def gen_cases(rng, tier):
     for _ in range(40 if quick else 600):
         chunk = rng.choice([40, 60, 100, 200, 4000])
         fan = chunk // 20
-        base = rng.choice([0, 1, chunk - 1, chunk, chunk + 1, chunk * fan, chunk * fan + 1, chunk * fan - 1, chunk * fan * fan,
+        base = rng.choice([0, 1, chunk - 1, chunk, chunk + 1, 2 * chunk + 3, chunk * (fan - 1) + 5, chunk * fan, chunk * fan + 1, chunk * fan - 1, chunk * fan * fan,
                            chunk * fan * fan + rng.randint(0, chunk), rng.randint(0, 60 * chunk), rng.randint(0, 3 * chunk)])
         cases.append({"kind": "blob", "seed": rng.randrange(1 << 30), "n": min(base, 400000), "chunk": chunk, "routes": ["bulk", "reuse"]})
     return cases
@@ -125,8 +146,12 @@ def coq_case(case, out):
         # harness error / panic: an observation no model agrees with and no oracle accepts
         return "({| i_kind := %d; i_n := 0; i_dec := []; i_chunk := 0 |}, {| o_shape := [[999]]; o_routes := [] |})" % kind
     dec = cq_list(cq_bytes(d) for d in o["dec"])
-    routes = cq_list("(%s, %s)" % (cq_bytes(r["root"]), cq_list(cq_bytes(l) for l in r["levels"])) for r in o["routes"])
-    shape = cq_list(cq_bytes(l) for l in o["routes"][0]["levels"])
+    rl = ["(%s, %s)" % (cq_bytes(r["root"]), cq_list(cq_bytes(l or []) for l in r["levels"])) for r in o["routes"]]
+    if o.get("node_addr_mismatch"):
+        # BlobBuilder.Chunk returned a node that is not the node at the address it returned: two different roots for one blob
+        rl.append("([], [])")
+    routes = cq_list(rl)
+    shape = cq_list(cq_bytes(l or []) for l in o["routes"][0]["levels"])
     if case["kind"] == "json":
         # the leaf splitter of JSON documents (json_chunker.go crossesBoundary) is not modelled: no shape is
         # predicted (blob model of 0 bytes = no levels), the routes are compared by the oracle only
@@ -161,14 +186,27 @@ def classify(case, out):
             t.append("blob-exact-multiple")
         if lv and len(lv[-1]) == 1 and lv[-1][0] == 1:
             t.append("blob-single-child-root")
+        if "reuse" in case["routes"] and 2 <= len(lv) < blob_levels(case["n"] * 3 + 2 * c * (c // 20) + 7, c):
+            t.append("blob-reuse-shallower-multichunk-after-taller")
+        if any(r["root"] != o["routes"][0]["root"] or r["levels"] != lv for r in o["routes"]) or o.get("node_addr_mismatch"):
+            t.append("routes-disagree")
         return t
     t.append("height%d" % len(lv))
     if case["n"] == 0:
         t.append("empty")
     if len(lv) == 1 and case["n"] > 0:
         t.append("single-chunk")
-    for r in case["routes"][1:]:
-        t.append("route:" + r)
+    for r in o["routes"][1:]:
+        t.append("route:" + r["name"])
+    if case.get("kpad"):
+        t.append("wide-keys")
+    ran = [r["name"] for r in o["routes"]]
+    if ("mergetail" in ran or "mergehead" in ran) and max(o.get("merge_heights") or [0]) >= 3:
+        t.append("height>=3-merge")
+    if "mergetail" in ran:
+        t.append("last-leaf-edit")
+    if "mergehead" in ran:
+        t.append("first-leaf-edit")
     if case.get("bigs") and o.get("maxval", 0) > 16384:
         t.append("size-forced-boundary")
     if case.get("del"):
